@@ -16,6 +16,7 @@ Definition gtype_of_sx (x : sx) : gtype :=
   else if String.eqb k "starsel" then TStarSel (sx_str (sx_nth 1 x)) (sx_str (sx_nth 2 x))
   else if String.eqb k "arr" then TArr (sx_str (sx_nth 1 x))
   else if String.eqb k "arrsel" then TArrSel (sx_str (sx_nth 1 x)) (sx_str (sx_nth 2 x))
+  else if String.eqb k "inline" then TInline
   else TEmpty.
 
 Definition gparam_of_sx (x : sx) : gparam := mkGParam (sx_strs (sx_nth 0 x)) (gtype_of_sx (sx_nth 1 x)).
